@@ -1,18 +1,21 @@
 (* Proofs_Exec.v — theorems about the INTERPRETER functions of Exec.v that are run in the
-   correspondence check (put_rank, get_rank_op, get_into_buffer, put_stream, check_request,
-   geom_of), connecting them to the proved facts about Access / Disk (Proofs_Access,
-   Proofs_RoundTrip, Proofs_CheckScs).
+   correspondence check (put_rank, coll_put, indep_put, get_rank_op, get_into_buffer, put_stream,
+   check_request, geom_of, do_enddef), connecting them to the proved facts about Access / Disk /
+   Fill / Layout (Proofs_Access, Proofs_RoundTrip, Proofs_CheckScs, Proofs_Fill, Proofs_Layout).
+   The enddef / close / open / redef theorems are in Proofs_Exec2.v (compile that file first).
 
    Main results (no axioms; every statement for arbitrary worlds / files / requests):
      put_rank_effect        an accepted single-request blocking put returns NC_NOERR and changes
                             exactly the disk of the file's slot into
                               dk_scatter d xsz (model_offsets g start count stride) (put_stream a xt 0 r)
      check_request_req_ok   what check_request accepts (var1 / vara / vars forms) satisfies req_ok
-     put_rank_bytes / put_rank_frame / put_rank_frame_region / put_rank_size
+     put_rank_frame (with put_disk_roundtrip / _element / _frame / _frame_region / _frame_below /
+     _frame_other_var / _size)
                             the addressed elements hold the stream, every other byte of the file
                             (header, other variables, other elements) is unchanged
      put_stream_defined     the stream consists of bytes in [0,256): no UNDEF
-     get_rank_op_typed      a typed get (memory type = external type) returns the guard bytes
+     get_into_buffer_typed, get_rank_op_typed
+                            a typed get (memory type = external type) returns the guard bytes
                             around the memory image of the elements gathered from the disk; an
                             element with an undefined byte is rendered as UNDEF and the return code
                             is RC_ANY
@@ -20,7 +23,13 @@
                             stream that was put
      get_after_put_other    get through ANY other accepted request on the same variable: each
                             element is the element last written or the previous disk content
-   Examples at the end instantiate every theorem on a world built with exec_all. *)
+     indep_put_effect, indep_put_then_get, coll_put_effect, coll_put_same_then_get
+                            the same for the script-level independent / collective put
+     geom_of_wf, acc_geom_wf  wf_geom and rec_fits of the interpreter's geometry follow from the
+                            layout invariant (recsize rule)
+     enddef_fill_reads_fill C16 at interpreter level: after the first enddef every element of a
+                            fill-mode fixed variable reads as its fill value
+   Examples at the end instantiate every theorem on worlds built with exec_all. *)
 From Pnc Require Import Base Gen_consts Header HeaderSpec Access Data Disk Move Fill Exec.
 From Pnc Require Import Proofs_Header Proofs_Fill Proofs_Exec2.
 From Pnc Require Import Proofs_Lists Proofs_Access Proofs_CheckScs Proofs_Layout Proofs_Disk
@@ -887,11 +896,29 @@ Definition sees_put (w2 : world) (f2 : filest) (a2 : access) (f : filest) (a : a
   acc_geom f2 a2 = acc_geom f a /\ acc_xt f2 a2 = acc_xt f a /\
   disk_of w2 f2 = put_disk f a r d.
 
-Lemma get_elems_eq : forall w2 f2 a2 f a r r' d, sees_put w2 f2 a2 f a r d ->
+(* ... or, weaker (enough, and what a collective put by several ranks or a later numrecs
+   update of the header leaves): a disk that agrees with the put's disk on the bytes of the
+   elements the request r' reads *)
+Definition sees_put_at (w2 : world) (f2 : filest) (a2 : access) (f : filest) (a : access)
+           (r : rreq) (d : disk) (r' : rreq) : Prop :=
+  acc_geom f2 a2 = acc_geom f a /\ acc_xt f2 a2 = acc_xt f a /\
+  forall o j, In o (req_offsets (acc_geom f a) r') -> 0 <= j < g_xsz (acc_geom f a) ->
+    dk_get (disk_of w2 f2) (o + j) = dk_get (put_disk f a r d) (o + j).
+
+Lemma sees_put_at_of_eq : forall w2 f2 a2 f a r d, sees_put w2 f2 a2 f a r d ->
+  forall r', sees_put_at w2 f2 a2 f a r d r'.
+Proof.
+  intros w2 f2 a2 f a r d (Hg & Hx & Hd) r'. split; [exact Hg|]. split; [exact Hx|].
+  intros o j _ _. rewrite Hd. reflexivity.
+Qed.
+
+Lemma get_elems_eq : forall w2 f2 a2 f a r r' d, sees_put_at w2 f2 a2 f a r d r' ->
   get_elems w2 f2 a2 r' =
   map (fun o => dk_read (put_disk f a r d) o (g_xsz (acc_geom f a))) (req_offsets (acc_geom f a) r').
 Proof.
-  intros w2 f2 a2 f a r r' d (Hg & _ & Hd). unfold get_elems. rewrite Hg, Hd. reflexivity.
+  intros w2 f2 a2 f a r r' d (Hg & _ & Hd). unfold get_elems. rewrite Hg.
+  apply map_ext_in. intros o Ho. apply dk_read_ext. intros x Hx.
+  replace x with (o + (x - o)) by lia. apply Hd; [exact Ho | lia].
 Qed.
 
 Lemma put_elems_defined : forall a xt l,
@@ -910,7 +937,7 @@ Qed.
 Theorem get_after_put : forall w f rank coll a r d w2 f2 rank2 coll2 a2,
   put_accepted w f rank coll a r ->
   get_accepted w2 f2 rank2 coll2 a2 r ->
-  sees_put w2 f2 a2 f a r d ->
+  sees_put_at w2 f2 a2 f a r d r ->
   get_rank_op w2 f2 rank2 coll2 a2 =
   (NC_NOERR,
    [THex (guard_bytes ++
@@ -953,7 +980,7 @@ Qed.
 Theorem get_after_put_other : forall w f rank coll a r d w2 f2 rank2 coll2 a2 r',
   put_accepted w f rank coll a r ->
   get_accepted w2 f2 rank2 coll2 a2 r' ->
-  sees_put w2 f2 a2 f a r d ->
+  sees_put_at w2 f2 a2 f a r d r' ->
   let g := acc_geom f a in let xt := acc_xt f a in
   let elems := get_elems w2 f2 a2 r' in
   get_rank_op w2 f2 rank2 coll2 a2 =
@@ -1074,7 +1101,7 @@ Proof.
   rewrite E in Hip. injection Hip as <- _. split; [exact Hf'|].
   apply (get_after_put w f rank false a r (disk_of w f) w3 f' rank2 coll2 a2 Hacc Hget).
   destruct (acc_geom_indep_numrecs f rank (put_newrecs f a r) a2) as (Hg & Hx & _).
-  unfold sees_put. unfold f' in *. rewrite Hg, Hx.
+  apply sees_put_at_of_eq. unfold sees_put. unfold f' in *. rewrite Hg, Hx.
   unfold acc_geom, acc_xt, the_var. rewrite Hv. repeat split. exact Hd.
 Qed.
 (* ================================================================== *)
@@ -1214,6 +1241,480 @@ Proof.
   intros f isput blocking coll a Hsan Hwf Hrs Hx Hdw. apply geom_of_wf; try assumption.
   split; [eapply sanity_var_in; exact Hsan | split; assumption].
 Qed.
+(* ================================================================== *)
+(** * 12. C16 at interpreter level: after the first enddef a get of a   *)
+(**       fill-mode fixed variable reads its fill value                 *)
+(* ================================================================== *)
+(* two different fixed variables of a layout occupy disjoint byte ranges *)
+Lemma bi_vars_apart : forall (F : var -> Z * Z) L e,
+  Forall (fun v => 0 <= snd (F v)) L ->
+  begins_increasing e (map F L) = true ->
+  forall v v', In v L -> In v' L ->
+    v = v' \/ fst (F v) + snd (F v) <= fst (F v') \/ fst (F v') + snd (F v') <= fst (F v).
+Proof.
+  intros F L. induction L as [|x r IH]; intros e Hnn Hbi v v' Hv Hv'; [destruct Hv|].
+  apply Forall_cons_iff in Hnn. destruct Hnn as [Hx Hr].
+  cbn [map] in Hbi. rewrite (surjective_pairing (F x)) in Hbi.
+  apply bi_cons in Hbi. destruct Hbi as (H1 & H2 & H3).
+  assert (Hge : forall y, In y r -> fst (F x) + snd (F x) <= fst (F y)).
+  { intros y Hy.
+    apply (bi_in_ge (map F r) _ (fst (F y)) (snd (F y))).
+    - apply Forall_map. exact Hr.
+    - exact H3.
+    - rewrite <- surjective_pairing. apply in_map. exact Hy. }
+  destruct Hv as [<-|Hv]; destruct Hv' as [<-|Hv'].
+  - left. reflexivity.
+  - right. left. apply Hge. exact Hv'.
+  - right. right. apply Hge. exact Hv.
+  - exact (IH _ Hr H3 v v' Hv Hv').
+Qed.
+
+Lemma nelems_unpadded : forall h v, nelems h v * vxsz v = unpadded (h_dims h) v.
+Proof. reflexivity. Qed.
+
+(** the fill at the first enddef (no record exists yet: nrecs = 0, every variable is new:
+    start_vid = 0): every element of every fill-mode fixed variable holds the fill value *)
+Lemma first_fill_elem : forall d h lay np bv v e,
+  hdr_wf h -> 1 <= np ->
+  begins_increasing bv (fixed_pairs h) = true ->
+  (forall v', In v' (h_vars h) -> v_nofill v' = false -> Zlen (var_fill_bytes v') = vxsz v') ->
+  In v (h_vars h) -> v_nofill v = false -> is_recvar (h_dims h) v = false -> 0 < vxsz v ->
+  0 <= e < nelems h v ->
+  dk_read (do_fill d h lay 0 0 np) (v_begin v + e * vxsz v) (vxsz v) = var_fill_bytes v.
+Proof.
+  intros d h lay np bv v e Hwf Hnp Hbi Hfl Hin Hnf Hfix Hx He.
+  apply do_fill_writes_fill; try assumption.
+  - rewrite Proofs_Base.zskipn_0. exact Hin.
+  - apply Hfl; assumption.
+  - intros r off c v' Hr Hseg.
+    apply fill_plan_in_iff in Hseg. rewrite Proofs_Base.zskipn_0 in Hseg.
+    destruct Hseg as (Hin' & Hnf' & Hc & [(Hfix' & Hoff) | (_ & recno & Hrn & _)]); [|lia].
+    assert (HL' : 0 <= nelems h v') by (apply nelems_nonneg; exact Hwf).
+    destruct (share_inside np (nelems h v') r Hnp HL' Hr) as [Hs0 Hs1].
+    pose proof (xlen_type_nonneg (v_type v')) as Hxs'. fold (vxsz v') in Hxs'.
+    pose proof (var_len_unpadded (h_dims h) v) as Hu. rewrite <- nelems_unpadded in Hu.
+    pose proof (var_len_unpadded (h_dims h) v') as Hu'. rewrite <- nelems_unpadded in Hu'.
+    rewrite (Hfl v' Hin' Hnf').
+    assert (Hseg_lo : v_begin v' <= off) by (subst off; nia).
+    assert (Hseg_hi : off + c * vxsz v' <= v_begin v' + var_len (h_dims h) v') by (subst off c; nia).
+    assert (HfL : forall u, In u (h_vars h) -> is_recvar (h_dims h) u = false -> In u (fixed_vars h)).
+    { intros u Hu1 Hu2. unfold fixed_vars. apply filter_In. split; [exact Hu1|]. rewrite Hu2. reflexivity. }
+    destruct (bi_vars_apart (fun u => (v_begin u, var_len (h_dims h) u)) (fixed_vars h) bv) with (v := v') (v' := v)
+      as [E|[E|E]].
+    + apply Forall_forall. intros u _. cbn [snd]. unfold var_len.
+      apply var_len_of_nonneg; [apply xlen_type_nonneg | apply var_shape_nonneg; exact Hwf].
+    + exact Hbi.
+    + apply HfL; assumption.
+    + apply HfL; assumption.
+    + left. exact E.
+    + cbn [fst snd] in E. right. left. lia.
+    + cbn [fst snd] in E. right. right. lia.
+Qed.
+
+Lemma fill_bytes_ok : forall t, Forall byte_ok (fill_bytes t).
+Proof. intros t. unfold fill_bytes. apply be_bytes_range. Qed.
+
+Lemma flat_map_const_repeat {A B} : forall (c : list B) (l : list A),
+  flat_map (fun _ => c) l = concat (repeat c (length l)).
+Proof. intros c l. induction l as [|x l IH]; [reflexivity|]. cbn [flat_map length repeat concat]. rewrite IH. reflexivity. Qed.
+
+Lemma const_elems_defined {A} : forall (fb : list byte) (l : list A), Forall byte_ok fb ->
+  existsb (existsb is_undef) (map (fun _ => fb) l) = false.
+Proof.
+  intros fb l H. induction l as [|i l IH]; [reflexivity|].
+  cbn [map existsb]. rewrite IH, (byte_ok_defined _ H). reflexivity.
+Qed.
+
+Lemma nelems_fixed : forall dims v, is_recvar dims v = false ->
+  var_nelems_per_rec (var_shape dims v) = zprod (var_shape dims v).
+Proof.
+  intros dims v H. unfold is_recvar in H. unfold var_nelems_per_rec.
+  destruct (var_shape dims v) as [|s0 ss]; [reflexivity|]. rewrite H. reflexivity.
+Qed.
+
+(** Deliverable 4a (C16 at interpreter level).  A file created in this session; its first
+    enddef succeeds (do_enddef returns NC_NOERR) and the header it keeps is encodable.  Then on
+    the world and file state the interpreter continues with, ANY accepted typed get (memory
+    type = external type; var1, vara or vars form; any rank; collective or independent) of a
+    FIXED-size variable in FILL mode whose fill value consists of defined bytes (the default
+    fill value always does) returns NC_NOERR and a buffer that holds the fill value in every
+    element. *)
+Theorem enddef_fill_reads_fill : forall w id f ea w',
+  f_old f = None -> f_indef f = true -> f_isnew f = true -> l_begin_rec (f_lay f) = 0 ->
+  hdr_wf (f_hdr f) ->
+  0 <= env_h_align (f_align f) -> 0 <= env_v_align (f_align f) -> 0 <= env_r_align (f_align f) ->
+  0 <= f_slot f < Zlen (w_disks w) -> 0 <= id < Zlen (w_files w) -> 1 <= w_nprocs w ->
+  do_enddef w id f ea = Some (w', NC_NOERR) ->
+  exists lay,
+    let f'' := enddef_file f lay in
+    znth (w_files w') id None = Some f'' /\
+    (wf_hdr (f_hdr f'') = true ->
+     forall rank coll a r,
+       get_accepted w' f'' rank coll a r ->
+       let v := the_var f'' a in
+       v_nofill v = false -> is_recvar (h_dims (f_hdr f'')) v = false ->
+       Forall byte_ok (var_fill_bytes v) ->
+       get_rank_op w' f'' rank coll a =
+       (NC_NOERR,
+        [THex (guard_bytes ++
+               concat (repeat (mem_of_be (var_fill_bytes v)) (Z.to_nat (nelems_of r))) ++
+               guard_bytes)])).
+Proof.
+  intros w id f ea w' Hold Hindef Hnew Hbr0 Hwf Hah Hav Har Hslot Hid Hnp Hed.
+  destruct (do_enddef_new_inv w id f ea w' Hindef Hold Hed)
+    as (ha & va & ra & lay & Hargs & Hvl & Hal & Hbeg & Hg & Ew).
+  exists lay. cbv zeta. rewrite Hbr0 in Hbeg.
+  destruct Hargs as (A1 & A2 & A3 & A4).
+  destruct (resolve_align_ok (f_align f) ea _ true ha va ra Hah Hav Har A2 A4 Hal)
+    as ((Hha & Hha4) & _ & (Hra & Hra4)).
+  destruct (begins_layout_ok (f_hdr f) _ _ ha ra lay Hwf A1 A3 Hha Hha4 Hra Hra4 Hbeg)
+    as (Hinv & _ & Hxsz & Hlen & _ & _ & _ & _ & Hbi & _).
+  split; [rewrite Ew; apply znth_put_set_same; exact Hid|].
+  intros Hwfh rank coll a r Hget Hnf Hfix Hfb.
+  set (f'' := enddef_file f lay) in *. set (v := the_var f'' a) in *.
+  set (h1 := f_hdr f'') in *.
+  pose proof (get_accepted_rq_ok _ _ _ _ _ _ Hget) as Hok.
+  rewrite (get_rank_op_typed w' f'' rank coll a r Hget). cbv zeta.
+  destruct Hget as (Hsan & Hchk & Hb & Hm & Hfl & Hwg).
+  pose proof Hwg as (Hx & _).
+  set (g := acc_geom f'' a) in *.
+  (* the disk the get reads *)
+  assert (Ed : disk_of w' f'' = do_fill (write_header (get_disk w (f_slot f)) h1) h1 lay 0 0 (w_nprocs w)).
+  { unfold disk_of. change (f_slot f'') with (f_slot f). rewrite Ew.
+    rewrite get_disk_put_set_same by exact Hslot. unfold enddef_new_disk. cbv zeta.
+    change (enddef_hdr f lay) with h1.
+    assert (Hv : In v (h_vars h1)) by (eapply sanity_var_in; exact Hsan).
+    destruct (h_vars h1); [destruct Hv | reflexivity]. }
+  (* every element read is the fill value *)
+  assert (Eel : get_elems w' f'' a r = map (fun _ => var_fill_bytes v) (rq_indices g r)).
+  { unfold get_elems. fold g. rewrite req_offsets_spec by assumption. rewrite map_map.
+    apply map_ext_in. intros idx Hidx.
+    pose proof (rq_indices_idx_ok g r idx Hok Hidx) as Hio. unfold idx_ok in Hio.
+    assert (Hrec : g_isrec g = false) by exact Hfix.
+    rewrite Hrec in Hio. rewrite elem_off_fixed by exact Hrec.
+    destruct (lin_bounds _ _ Hio) as [L0 L1].
+    rewrite Ed.
+    change (g_begin g) with (v_begin v). change (g_xsz g) with (vxsz v).
+    apply (first_fill_elem _ h1 lay (w_nprocs w) (bv1_new (f_hdr f) (e_h_minfree ea) ha) v).
+    - exact Hwf.
+    - exact Hnp.
+    - exact Hbi.
+    - intros v' Hv' Hnf'. apply (fill_len_ok_of_guard h1 0 Hwfh Hg v'); [|exact Hnf'].
+      rewrite Proofs_Base.zskipn_0. exact Hv'.
+    - eapply sanity_var_in. exact Hsan.
+    - exact Hnf.
+    - exact Hfix.
+    - exact Hx.
+    - unfold nelems. fold h1. rewrite (nelems_fixed _ _ Hfix).
+      change (var_shape (h_dims h1) v) with (g_shape g). lia. }
+  rewrite Eel.
+  rewrite (const_elems_defined _ (rq_indices g r) Hfb). f_equal. f_equal. f_equal. f_equal.
+  rewrite flat_map_concat_map, map_map, <- flat_map_concat_map.
+  rewrite (flat_map_ext _ (fun _ => mem_of_be (var_fill_bytes v)))
+    by (intros _; apply elem_image_defined; exact Hfb).
+  rewrite flat_map_const_repeat. f_equal. f_equal. f_equal.
+  pose proof (Zlen_rq_indices g r Hok) as Hz. unfold Zlen in Hz. lia.
+Qed.
+
+(* ================================================================== *)
+(** * 13. coll_put: the script-level collective put                     *)
+(* ================================================================== *)
+Lemma check_request_strict : forall w w' f rank isread a, w_strict w' = w_strict w ->
+  check_request w' f rank isread a = check_request w f rank isread a.
+Proof. intros w w' f rank isread a H. unfold check_request. rewrite H. reflexivity. Qed.
+
+Lemma same_but_disks_trans : forall w1 w2 w3,
+  same_but_disks w1 w2 -> same_but_disks w2 w3 -> same_but_disks w1 w3.
+Proof.
+  intros w1 w2 w3 (A1 & A2 & A3 & A4 & A5 & A6 & A7) (B1 & B2 & B3 & B4 & B5 & B6 & B7).
+  unfold same_but_disks. repeat split; congruence.
+Qed.
+
+Lemma Forall2_imp {A B} (R1 R2 : A -> B -> Prop) : (forall a b, R1 a b -> R2 a b) ->
+  forall l l', Forall2 R1 l l' -> Forall2 R2 l l'.
+Proof. intros H l l' H1. induction H1; constructor; auto. Qed.
+
+(* the interpreter's own checks for the put of one rank of a collective call *)
+Definition rank_put_ok (w : world) (f : filest) (ra : Z * access) (r : rreq) : Prop :=
+  sanity f true true true (snd ra) = NC_NOERR /\
+  check_request w f (fst ra) false (snd ra) = (NC_NOERR, Some [r]) /\
+  iomismatch (snd ra) [r] = false.
+
+(* the disk after the ranks' puts, applied in rank order *)
+Definition coll_disk (f : filest) (ars : list (access * rreq)) (d : disk) : disk :=
+  fold_left (fun d ar => put_disk f (fst ar) (snd ar) d) ars d.
+
+Definition cp_step (id : Z) (f : filest) (acc : world * list (Z * Z * option Z)) (ra : Z * access)
+  : world * list (Z * Z * option Z) :=
+  let '(wc, out) := acc in
+  let '(w', rc, nn, part) := put_rank wc id f (fst ra) true (snd ra) in
+  (w', out ++ [(fst ra, rc, nn)]).
+
+Definition cp_res (f : filest) (ras : list (Z * access)) (rs : list rreq) : list (Z * Z * option Z) :=
+  map (fun p : (Z * access) * rreq => (fst (fst p), NC_NOERR, put_newrecs f (snd (fst p)) (snd p)))
+      (zip ras rs).
+
+Lemma cp_fold : forall id f ras rs, Forall2 (fun _ _ => True) ras rs ->
+  forall w out,
+  0 <= f_slot f < Zlen (w_disks w) ->
+  Forall2 (rank_put_ok w f) ras rs ->
+  exists w1,
+    fold_left (cp_step id f) ras (w, out) = (w1, out ++ cp_res f ras rs) /\
+    same_but_disks w w1 /\
+    disk_of w1 f = coll_disk f (zip (map snd ras) rs) (disk_of w f) /\
+    (forall s, s <> f_slot f -> get_disk w1 s = get_disk w s).
+Proof.
+  intros id f ras rs Hlen. induction Hlen as [|ra r ras rs _ _ IH]; intros w out Hslot Hall.
+  - exists w. cbn [fold_left]. unfold cp_res. cbn [zip map]. rewrite app_nil_r.
+    split; [reflexivity|]. split; [apply same_but_disks_refl|]. split; [reflexivity|].
+    intros s _. reflexivity.
+  - inversion Hall as [|? ? ? ? Hra Hrest]; subst.
+    destruct Hra as (Hsan & Hchk & Hio).
+    destruct (put_rank_effect w id f (fst ra) true (snd ra) r Hslot Hsan Hchk Hio)
+      as (w' & Hput & Hd & Hoth & Hsame).
+    cbn [fold_left]. unfold cp_step at 2. rewrite Hput.
+    pose proof Hsame as (_ & _ & _ & _ & Hstrict & _ & Hnd).
+    destruct (IH w' (out ++ [(fst ra, NC_NOERR, put_newrecs f (snd ra) r)])) as (w1 & Hf & Hs1 & Hd1 & Ho1).
+    + rewrite Hnd. exact Hslot.
+    + eapply Forall2_imp; [|exact Hrest]. intros ra' r' (S1 & S2 & S3).
+      split; [exact S1|]. split; [|exact S3].
+      rewrite (check_request_strict w w' f _ _ _ Hstrict). exact S2.
+    + exists w1. split; [|split; [|split]].
+      * rewrite Hf. unfold cp_res. cbn [zip map fst snd]. rewrite <- app_assoc. reflexivity.
+      * eapply same_but_disks_trans; eassumption.
+      * rewrite Hd1, Hd. reflexivity.
+      * intros s Hs. rewrite (Ho1 s Hs). apply Hoth. exact Hs.
+Qed.
+
+Lemma Forall2_True {A B} (R : A -> B -> Prop) : forall l l', Forall2 R l l' -> Forall2 (fun _ _ => True) l l'.
+Proof. intros l l' H. eapply Forall2_imp; [|exact H]. intros; exact I. Qed.
+
+Lemma coll_put_eq : forall w id f ras,
+  coll_put w id f ras =
+  let '(w1, res) := fold_left (cp_step id f) ras (w, []) in
+  let fatal rc := (rc =? NC_EPERM) || (rc =? NC_EINDEFINE) || (rc =? NC_EINDEP) || (rc =? NC_ENOTINDEP) in
+  if existsb (fun x => fatal (snd (fst x))) res then
+    (w, map (fun x => (fst (fst x), snd (fst x), [TSame])) res)
+  else
+    match znth (w_files w1) id None with
+    | None => (w1, [])
+    | Some f1 =>
+        let v_isrec := fun (ra : Z * access) =>
+              let a := snd ra in
+              if (0 <=? ac_var a) && (ac_var a <? Zlen (h_vars (f_hdr f1)))
+              then is_recvar (h_dims (f_hdr f1)) (the_var f1 a) else false in
+        let w2 := if existsb v_isrec ras
+                  then coll_numrecs_sync w1 id f1 (map (fun x => snd x) res) else w1 in
+        (w2, map (fun x => (fst (fst x), snd (fst x), [TSame])) res)
+    end.
+Proof. reflexivity. Qed.
+
+Lemma cp_res_not_fatal : forall f ras rs,
+  existsb (fun x : Z * Z * option Z =>
+             (snd (fst x) =? NC_EPERM) || (snd (fst x) =? NC_EINDEFINE) ||
+             (snd (fst x) =? NC_EINDEP) || (snd (fst x) =? NC_ENOTINDEP)) (cp_res f ras rs) = false.
+Proof.
+  intros f ras rs. unfold cp_res. induction (zip ras rs) as [|p l IH]; [reflexivity|].
+  cbn [map existsb fst snd]. rewrite IH. reflexivity.
+Qed.
+
+Lemma cp_res_obs : forall f ras rs, Forall2 (fun _ _ => True) ras rs ->
+  map (fun x : Z * Z * option Z => (fst (fst x), snd (fst x), [TSame])) (cp_res f ras rs) =
+  map (fun ra : Z * access => (fst ra, NC_NOERR, [TSame])) ras.
+Proof.
+  intros f ras rs H. unfold cp_res. induction H as [|ra r ras rs _ _ IH]; [reflexivity|].
+  cbn [zip map fst snd]. rewrite IH. reflexivity.
+Qed.
+
+Lemma Zlen_put_nn_le : forall fmt x, Zlen (put_nn fmt x) <= 8.
+Proof. intros fmt x. unfold put_nn. destruct (fmt <? 5); vm_compute; discriminate. Qed.
+
+(** a collective put in which every rank's access passes the interpreter's checks: every rank
+    observes NC_NOERR; the file's disk is the ranks' scatters applied in rank order, except
+    possibly for the numrecs field of the header (bytes 4..11), rewritten when a record
+    variable grew; the file state keeps its slot, layout, dimensions and variables (only
+    numrecs change), hence every variable's geometry *)
+Theorem coll_put_effect : forall w id f ras rs,
+  0 <= f_slot f < Zlen (w_disks w) ->
+  znth (w_files w) id None = Some f ->
+  Forall2 (rank_put_ok w f) ras rs ->
+  let D1 := coll_disk f (zip (map snd ras) rs) (disk_of w f) in
+  exists w2 f2,
+    coll_put w id f ras = (w2, map (fun ra => (fst ra, NC_NOERR, [TSame])) ras) /\
+    znth (w_files w2) id None = Some f2 /\
+    f_slot f2 = f_slot f /\ f_lay f2 = f_lay f /\
+    h_dims (f_hdr f2) = h_dims (f_hdr f) /\ h_vars (f_hdr f2) = h_vars (f_hdr f) /\
+    h_format (f_hdr f2) = h_format (f_hdr f) /\
+    (forall a, acc_geom f2 a = acc_geom f a /\ acc_xt f2 a = acc_xt f a) /\
+    (forall x, x < 4 \/ 12 <= x -> dk_get (disk_of w2 f2) x = dk_get D1 x) /\
+    (forall s, s <> f_slot f -> get_disk w2 s = get_disk w s) /\
+    w_strict w2 = w_strict w /\ w_nprocs w2 = w_nprocs w.
+Proof.
+  intros w id f ras rs Hslot Hf Hall D1.
+  pose proof (Forall2_True _ _ _ Hall) as Hlen.
+  destruct (cp_fold id f ras rs Hlen w [] Hslot Hall) as (w1 & Hfold & Hsame & Hd1 & Ho1).
+  pose proof Hsame as (Hnp & Hfiles & _ & _ & Hstrict & _ & Hnd).
+  pose proof (znth_some_range _ _ _ Hf) as Hid.
+  set (visrec := fun ra : Z * access =>
+         if (0 <=? ac_var (snd ra)) && (ac_var (snd ra) <? Zlen (h_vars (f_hdr f)))
+         then is_recvar (h_dims (f_hdr f)) (the_var f (snd ra)) else false).
+  assert (Ecp : coll_put w id f ras =
+                (if existsb visrec ras
+                 then coll_numrecs_sync w1 id f (map (fun x : Z * Z * option Z => snd x) (cp_res f ras rs))
+                 else w1,
+                 map (fun ra : Z * access => (fst ra, NC_NOERR, [TSame])) ras)).
+  { rewrite coll_put_eq, Hfold. cbn [app]. cbv beta iota zeta.
+    rewrite cp_res_not_fatal. rewrite Hfiles. rewrite Hf. rewrite (cp_res_obs f ras rs Hlen). reflexivity. }
+  rewrite Ecp. clear Ecp.
+  destruct (existsb visrec ras).
+  - (* some record variable: numrecs agreement *)
+    unfold coll_numrecs_sync.
+    match goal with |- context [put_file (set_disk w1 (f_slot f) ?d) id (Some ?g)] =>
+      set (d' := d); set (f2 := g) end.
+    exists (put_file (set_disk w1 (f_slot f) d') id (Some f2)), f2.
+    split; [reflexivity|].
+    split. { unfold put_file, set_files, set_disk. cbn [w_files]. apply znth_zupd_same. rewrite Hfiles. exact Hid. }
+    split; [reflexivity|]. split; [reflexivity|]. split; [reflexivity|]. split; [reflexivity|].
+    split; [reflexivity|].
+    split; [intros a; split; reflexivity|].
+    split.
+    { intros x Hx. rewrite disk_of_put_file. unfold disk_of. change (f_slot f2) with (f_slot f).
+      rewrite get_disk_set_disk_same by (rewrite Hnd; exact Hslot).
+      unfold d'. fold (disk_of w1 f). rewrite Hd1. fold D1.
+      match goal with |- context [if ?c then _ else _] => destruct c end; [|reflexivity].
+      unfold write_numrecs_bytes. rewrite dk_get_write.
+      match goal with |- context [put_nn ?a ?b] => pose proof (Zlen_put_nn_le a b) as Hl;
+        pose proof (Zlen_nonneg (put_nn a b)) as Hl0 end.
+      match goal with |- context [if ?c then _ else _] => destruct c eqn:Ec end; [exfalso; lia | reflexivity]. }
+    split.
+    { intros s Hs. unfold put_file, set_files, get_disk. cbn [w_disks].
+      fold (get_disk (set_disk w1 (f_slot f) d') s). rewrite get_disk_set_disk_other by exact Hs.
+      apply Ho1. exact Hs. }
+    split; [exact Hstrict | exact Hnp].
+  - exists w1, f.
+    split; [reflexivity|]. split; [rewrite Hfiles; exact Hf|].
+    split; [reflexivity|]. split; [reflexivity|]. split; [reflexivity|]. split; [reflexivity|].
+    split; [reflexivity|].
+    split; [intros a; split; reflexivity|].
+    split; [intros x _; rewrite Hd1; reflexivity|].
+    split; [exact Ho1|]. split; [exact Hstrict | exact Hnp].
+Qed.
+
+(* ---------- all ranks put the same access (exec_all (OPut _ true a)) ---------- *)
+(* the content of the disk before a put matters only outside the addressed elements *)
+Lemma put_disk_ext : forall f a r d1 d2,
+  wf_geom (acc_geom f a) -> rec_fits (acc_geom f a) -> rq_ok (acc_geom f a) r ->
+  (forall x, dk_get d1 x = dk_get d2 x) ->
+  forall x, dk_get (put_disk f a r d1) x = dk_get (put_disk f a r d2) x.
+Proof.
+  intros f a r d1 d2 Hwf Hfit Hok Hext x. unfold put_disk.
+  set (g := acc_geom f a) in *. set (offs := req_offsets g r). set (bs := put_stream a (acc_xt f a) 0 r).
+  pose proof (req_offsets_disjoint g r Hwf Hfit Hok) as Hdis. fold offs in Hdis.
+  pose proof (put_disk_len f a r Hwf Hok) as Hlen. fold g offs bs in Hlen.
+  destruct (in_elems_dec (g_xsz g) offs x) as [(k & Hk & Hin)|Hout].
+  - unfold in_elem in Hin. replace x with (znth offs k 0 + (x - znth offs k 0)) by lia.
+    rewrite !scatter_get_in by (try assumption; lia). reflexivity.
+  - rewrite !scatter_get_out by exact Hout. apply Hext.
+Qed.
+
+(* putting the same stream at the same elements twice is putting it once *)
+Lemma put_disk_idem : forall f a r d,
+  wf_geom (acc_geom f a) -> rec_fits (acc_geom f a) -> rq_ok (acc_geom f a) r ->
+  forall x, dk_get (put_disk f a r (put_disk f a r d)) x = dk_get (put_disk f a r d) x.
+Proof.
+  intros f a r d Hwf Hfit Hok x. unfold put_disk at 1.
+  set (g := acc_geom f a) in *. set (offs := req_offsets g r). set (bs := put_stream a (acc_xt f a) 0 r).
+  pose proof (req_offsets_disjoint g r Hwf Hfit Hok) as Hdis. fold offs in Hdis.
+  pose proof (put_disk_len f a r Hwf Hok) as Hlen. fold g offs bs in Hlen.
+  destruct (in_elems_dec (g_xsz g) offs x) as [(k & Hk & Hin)|Hout].
+  - unfold in_elem in Hin. replace x with (znth offs k 0 + (x - znth offs k 0)) by lia.
+    unfold put_disk. fold g offs bs.
+    rewrite !scatter_get_in by (try assumption; lia). reflexivity.
+  - rewrite scatter_get_out by exact Hout. reflexivity.
+Qed.
+
+Lemma coll_disk_same : forall f a r n d,
+  wf_geom (acc_geom f a) -> rec_fits (acc_geom f a) -> rq_ok (acc_geom f a) r ->
+  forall x, dk_get (coll_disk f (repeat (a, r) (S n)) d) x = dk_get (put_disk f a r d) x.
+Proof.
+  intros f a r n. induction n as [|n IH]; intros d Hwf Hfit Hok x.
+  - reflexivity.
+  - change (coll_disk f (repeat (a, r) (S (S n))) d)
+      with (coll_disk f (repeat (a, r) (S n)) (put_disk f a r d)).
+    rewrite IH by assumption. apply put_disk_idem; assumption.
+Qed.
+
+Lemma zip_repeat : forall (ranks : list Z) (a : access) (r : rreq),
+  zip (map snd (map (fun k => (k, a)) ranks)) (repeat r (length ranks)) = repeat (a, r) (length ranks).
+Proof.
+  intros ranks a r. induction ranks as [|k l IH]; [reflexivity|].
+  cbn [map length repeat zip snd]. rewrite IH. reflexivity.
+Qed.
+
+(** OPut collective with the same access on every rank (what exec_all runs), then a get: if the
+    access is accepted on every rank (the write-side checks do not depend on the rank's
+    numrecs, so all ranks resolve the same request r) every rank observes NC_NOERR, and a
+    subsequent accepted typed get of the same request — on any rank, on the world and file
+    state coll_put returns — reads back the image of the stream.  The numrecs update of the
+    header (bytes 4..11) cannot disturb it because the variable begins at or after byte 12. *)
+Theorem coll_put_same_then_get : forall w id f ranks a r,
+  ranks <> [] ->
+  0 <= f_slot f < Zlen (w_disks w) ->
+  znth (w_files w) id None = Some f ->
+  (forall k, In k ranks -> put_accepted w f k true a r) ->
+  12 <= g_begin (acc_geom f a) ->
+  exists w2 f2,
+    coll_put w id f (map (fun k => (k, a)) ranks) =
+      (w2, map (fun k => (k, NC_NOERR, [TSame])) ranks) /\
+    znth (w_files w2) id None = Some f2 /\
+    forall rank2 coll2 a2, ac_var a2 = ac_var a ->
+      get_accepted w2 f2 rank2 coll2 a2 r ->
+      get_rank_op w2 f2 rank2 coll2 a2 =
+      (NC_NOERR,
+       [THex (guard_bytes ++
+              flat_map (fun k => mem_of_be (put_elem a (acc_xt f a) k)) (zrange 0 (nelems_of r)) ++
+              guard_bytes)]).
+Proof.
+  intros w id f ranks a r Hne Hslot Hf Hall Hbeg.
+  assert (Hall2 : Forall2 (rank_put_ok w f) (map (fun k => (k, a)) ranks) (repeat r (length ranks))).
+  { clear Hne. induction ranks as [|k l IH]; [constructor|].
+    cbn [map length repeat]. constructor.
+    - destruct (Hall k (or_introl eq_refl)) as (_ & S1 & S2 & S3 & _).
+      unfold rank_put_ok. cbn [fst snd]. auto.
+    - apply IH. intros k' Hk'. apply Hall. right. exact Hk'. }
+  destruct (coll_put_effect w id f _ _ Hslot Hf Hall2)
+    as (w2 & f2 & Hcp & Hf2 & Hsl & Hlay & Hdims & Hvars & Hfmt & Hgeo & Hdisk & _).
+  exists w2, f2. split.
+  { rewrite Hcp. rewrite map_map. reflexivity. }
+  split; [exact Hf2|].
+  intros rank2 coll2 a2 Hv Hget.
+  destruct ranks as [|k0 rest]; [contradiction|].
+  pose proof (Hall k0 (or_introl eq_refl)) as Hacc.
+  pose proof (put_accepted_rq_ok _ _ _ _ _ _ Hacc) as Hok.
+  pose proof Hacc as (_ & _ & _ & _ & _ & Hwf & Hfit).
+  apply (get_after_put w f k0 true a r (disk_of w f) w2 f2 rank2 coll2 a2 Hacc Hget).
+  destruct (Hgeo a2) as [Hg2 Hx2].
+  assert (Eg : acc_geom f a2 = acc_geom f a) by (unfold acc_geom, the_var; rewrite Hv; reflexivity).
+  assert (Ex : acc_xt f a2 = acc_xt f a) by (unfold acc_xt, the_var; rewrite Hv; reflexivity).
+  split; [congruence|]. split; [congruence|].
+  intros o j Ho Hj.
+  (* the byte lies inside the variable, above the numrecs field *)
+  assert (Hge : g_begin (acc_geom f a) <= o + j).
+  { rewrite req_offsets_spec in Ho by assumption. apply in_map_iff in Ho.
+    destruct Ho as [idx [<- Hidx]].
+    destruct (Z_lt_ge_dec (elem_off (acc_geom f a) idx + j) (g_begin (acc_geom f a))) as [Hlt|]; [|lia].
+    exfalso.
+    assert (Hreg : var_region (acc_geom f a) (elem_off (acc_geom f a) idx + j)).
+    { pose proof Hwf as (Hxs & _).
+      eapply elem_in_region; [lia | eapply rq_indices_idx_ok; eassumption | unfold in_elem; lia]. }
+    unfold var_region in Hreg. destruct Hwf as (Hxs & Hrs & Hdw & _).
+    destruct (g_isrec (acc_geom f a)).
+    - destruct Hreg as [i0 [Hi0 Hr]]. assert (0 <= i0 * g_recsize (acc_geom f a)) by nia. lia.
+    - lia. }
+  rewrite Hdisk by lia.
+  rewrite zip_repeat. apply coll_disk_same; assumption.
+Qed.
+
 (* ================================================================== *)
 (** * 11. Examples: a world built by the interpreter itself             *)
 (* ================================================================== *)
@@ -1359,7 +1860,7 @@ Qed.
 
 Example ex_get_other :=
   get_after_put_other ex_w ex_f 0 false ex_a ex_r (disk_of ex_w ex_f) ex_w1 ex_f1 0 false ex_a' ex_r'
-    ex_put_accepted ex_get_accepted' ex_sees_put.
+    ex_put_accepted ex_get_accepted' (sees_put_at_of_eq _ _ _ _ _ _ _ ex_sees_put ex_r').
 
 Example ex_get_other_compute :
   get_rank_op ex_w1 ex_f1 0 false ex_a' =
@@ -1392,6 +1893,247 @@ Qed.
 
 Example ex_put_rank1 := put_rank_frame ex_w 0 ex_f 0 false ex_a1 ex_r1 ex_put_accepted1.
 
+(* ---------- example for enddef_fill_reads_fill ---------- *)
+Definition the_world (o : option (world * Z)) (w0 : world) : world :=
+  match o with Some (w', _) => w' | None => w0 end.
+
+Lemma some_world : forall (o : option (world * Z)) w0,
+  match o with Some (_, rc) => rc =? NC_NOERR | None => false end = true ->
+  o = Some (the_world o w0, NC_NOERR).
+Proof.
+  intros [[w' rc]|] w0 H; [|discriminate H]. cbn [the_world]. f_equal. f_equal. lia.
+Qed.
+
+Lemma some_inj {A} : forall (a b : A), Some a = Some b -> a = b.
+Proof. intros a b H. inversion H. reflexivity. Qed.
+
+(* 2 ranks; CDF-5 file in slot 0, fill mode on; dims t (unlimited), x = 5;
+   a : int [x] (default fill), c : short [x] (_FillValue = 42), r : short [t][x],
+   b : double [x] switched to no-fill; still in define mode *)
+Definition fx_wdef : world :=
+  run (world0 2)
+      [OCreate 0 5 1; OSetFill 0 0; ODefDim 0 [116] 0; ODefDim 0 [120] 5;
+       ODefVar 0 [97] 4 [1]; ODefVar 0 [99] 3 [1]; ODefVar 0 [114] 3 [0; 1];
+       ODefVar 0 [98] 6 [1]; ODefVarFill 0 1 0 1 42; ODefVarFill 0 3 1 0 0].
+Definition fx_fdef : filest := file_at fx_wdef 0.
+Definition fx_ea : enddef_args := mkeargs 0 0 0 0.
+(* the world after the enddef the interpreter runs *)
+Definition fx_w : world := the_world (do_enddef fx_wdef 0 fx_fdef fx_ea) fx_wdef.
+Definition fx_f : filest := file_at fx_w 0.
+
+Example fx_enddef : do_enddef fx_wdef 0 fx_fdef fx_ea = Some (fx_w, NC_NOERR).
+Proof. apply some_world. vm_compute. reflexivity. Qed.
+
+Example fx_exec_enddef : fst (exec_all fx_wdef (OEnddef 0)) = fx_w.
+Proof.
+  unfold exec_all. cbv zeta.
+  assert (E : lookup_file fx_wdef (slot_of (OEnddef 0)) = Some (0, fx_fdef)) by (vm_compute; reflexivity).
+  rewrite E. assert (Et : f_tainted fx_fdef = false) by (vm_compute; reflexivity). rewrite Et.
+  change (mkeargs 0 0 0 0) with fx_ea. rewrite fx_enddef. reflexivity.
+Qed.
+
+Example fx_file : znth (w_files fx_w) 0 None = Some fx_f.
+Proof. vm_compute. reflexivity. Qed.
+
+Example fx_vars :
+  map (fun v => (v_name v, v_begin v, v_nofill v, var_fill_bytes v)) (h_vars (f_hdr fx_f)) =
+  [([97], 512, false, [128; 0; 0; 1]); ([99], 532, false, [0; 42]);
+   ([114], 584, false, [128; 1]); ([98], 544, true, [71; 158; 0; 0; 0; 0; 0; 0])].
+Proof. vm_compute. reflexivity. Qed.
+
+Example fx_hdr_wf : hdr_wf (f_hdr fx_fdef).
+Proof.
+  unfold hdr_wf.
+  assert (E : h_dims (f_hdr fx_fdef) = [mkdim [116] 0; mkdim [120] 5]) by (vm_compute; reflexivity).
+  rewrite E. repeat constructor; cbn [d_size]; lia.
+Qed.
+
+(* collective get_vara_short of c[1..3] on rank 1, and get_var1_int of a[4] on rank 0 *)
+Definition fx_gc : access := mkacc 1 (FVara (Some [1]) (Some [3])) 3 false BTyped 0.
+Definition fx_rc : rreq := mkrreq [1] [3] None None.
+Definition fx_ga : access := mkacc 0 (FVar1 (Some [4])) 4 false BTyped 0.
+Definition fx_ra : rreq := mkrreq [4] [1] None None.
+
+Lemma fx_geom_wf : forall a, sanity fx_f false true true a = NC_NOERR ->
+  0 < xlen_type (acc_xt fx_f a) -> dims_wf (g_shape (acc_geom fx_f a)) ->
+  wf_geom (acc_geom fx_f a).
+Proof.
+  intros a Hs Hx Hd. apply (acc_geom_wf fx_f false true true a Hs).
+  - unfold hdr_wf.
+    assert (E : h_dims (f_hdr fx_f) = [mkdim [116] 0; mkdim [120] 5]) by (vm_compute; reflexivity).
+    rewrite E. repeat constructor; cbn [d_size]; lia.
+  - vm_compute. reflexivity.
+  - exact Hx.
+  - exact Hd.
+Qed.
+
+Example fx_get_accepted_c : get_accepted fx_w fx_f 1 true fx_gc fx_rc.
+Proof.
+  assert (H1 : sanity fx_f false true true fx_gc = NC_NOERR) by (vm_compute; reflexivity).
+  assert (H2 : check_request fx_w fx_f 1 true fx_gc = (NC_NOERR, Some [fx_rc])) by (vm_compute; reflexivity).
+  assert (H3 : ac_memt fx_gc = acc_xt fx_f fx_gc) by (vm_compute; reflexivity).
+  assert (H4 : form_lengths (ac_form fx_gc) (length (g_shape (acc_geom fx_f fx_gc))))
+    by (vm_compute; repeat split; reflexivity).
+  refine (conj H1 (conj H2 (conj eq_refl (conj H3 (conj H4 _))))).
+  apply fx_geom_wf; [exact H1 | vm_compute; reflexivity |].
+  assert (E : g_shape (acc_geom fx_f fx_gc) = [5]) by (vm_compute; reflexivity).
+  rewrite E. cbn [dims_wf]. split; [lia | constructor].
+Qed.
+
+Example fx_get_accepted_a : get_accepted fx_w fx_f 0 true fx_ga fx_ra.
+Proof.
+  assert (H1 : sanity fx_f false true true fx_ga = NC_NOERR) by (vm_compute; reflexivity).
+  assert (H2 : check_request fx_w fx_f 0 true fx_ga = (NC_NOERR, Some [fx_ra])) by (vm_compute; reflexivity).
+  assert (H3 : ac_memt fx_ga = acc_xt fx_f fx_ga) by (vm_compute; reflexivity).
+  assert (H4 : form_lengths (ac_form fx_ga) (length (g_shape (acc_geom fx_f fx_ga))))
+    by (vm_compute; repeat split; reflexivity).
+  refine (conj H1 (conj H2 (conj eq_refl (conj H3 (conj H4 _))))).
+  apply fx_geom_wf; [exact H1 | vm_compute; reflexivity |].
+  assert (E : g_shape (acc_geom fx_f fx_ga) = [5]) by (vm_compute; reflexivity).
+  rewrite E. cbn [dims_wf]. split; [lia | constructor].
+Qed.
+
+(* the theorem, with every hypothesis discharged on the instance: the three elements of c read
+   0x002a (little endian 2a 00), the element of a reads NC_FILL_INT = 0x80000001 *)
+Example fx_fill_reads :
+  get_rank_op fx_w fx_f 1 true fx_gc =
+    (NC_NOERR, [THex (guard_bytes ++ [42; 0; 42; 0; 42; 0] ++ guard_bytes)]) /\
+  get_rank_op fx_w fx_f 0 true fx_ga =
+    (NC_NOERR, [THex (guard_bytes ++ [1; 0; 0; 128] ++ guard_bytes)]).
+Proof.
+  destruct (enddef_fill_reads_fill fx_wdef 0 fx_fdef fx_ea fx_w) as (lay & Hf & Hget).
+  - vm_compute; reflexivity.
+  - vm_compute; reflexivity.
+  - vm_compute; reflexivity.
+  - vm_compute; reflexivity.
+  - exact fx_hdr_wf.
+  - apply Z.leb_le; vm_compute; reflexivity.
+  - apply Z.leb_le; vm_compute; reflexivity.
+  - apply Z.leb_le; vm_compute; reflexivity.
+  - split; [apply Z.leb_le | apply Z.ltb_lt]; vm_compute; reflexivity.
+  - split; [apply Z.leb_le | apply Z.ltb_lt]; vm_compute; reflexivity.
+  - apply Z.leb_le; vm_compute; reflexivity.
+  - exact fx_enddef.
+  - cbv zeta in Hf, Hget. rewrite fx_file in Hf. apply some_inj in Hf. rewrite <- Hf in Hget.
+    assert (Hwfh : wf_hdr (f_hdr fx_f) = true) by (vm_compute; reflexivity).
+    specialize (Hget Hwfh). split.
+    + rewrite (Hget 1 true fx_gc fx_rc fx_get_accepted_c).
+      * vm_compute. reflexivity.
+      * vm_compute. reflexivity.
+      * vm_compute. reflexivity.
+      * assert (E : var_fill_bytes (the_var fx_f fx_gc) = [0; 42]) by (vm_compute; reflexivity).
+        rewrite E. repeat constructor; unfold byte_ok; lia.
+    + rewrite (Hget 0 true fx_ga fx_ra fx_get_accepted_a).
+      * vm_compute. reflexivity.
+      * vm_compute. reflexivity.
+      * vm_compute. reflexivity.
+      * assert (E : var_fill_bytes (the_var fx_f fx_ga) = fill_bytes 4) by (vm_compute; reflexivity).
+        rewrite E. apply fill_bytes_ok.
+Qed.
+
+Example fx_fill_reads_compute :
+  get_rank_op fx_w fx_f 1 true fx_gc =
+    (NC_NOERR, [THex (guard_bytes ++ [42; 0; 42; 0; 42; 0] ++ guard_bytes)]).
+Proof. vm_compute. reflexivity. Qed.
+
+(* ---------- example for coll_put_effect / coll_put_same_then_get ---------- *)
+(* the file of ex_w, left in collective mode *)
+Definition cx_w : world :=
+  run (world0 2)
+      [OCreate 0 5 1; ODefDim 0 [116] 0; ODefDim 0 [120] 3; ODefDim 0 [121] 4;
+       ODefVar 0 [97] 4 [1; 2]; ODefVar 0 [114] 3 [0; 2]; ODefVar 0 [115] 6 [0];
+       OEnddef 0].
+Definition cx_f : filest := file_at cx_w 0.
+Definition cx_w2 : world := fst (coll_put cx_w 0 cx_f (map (fun k => (k, ex_a)) [0; 1])).
+Definition cx_f2 : filest := file_at cx_w2 0.
+
+Example cx_file : znth (w_files cx_w) 0 None = Some cx_f.
+Proof. vm_compute. reflexivity. Qed.
+
+(* this is what the step function runs for "put collective" on all ranks *)
+Example cx_exec : exec_all cx_w (OPut 0 true ex_a) = coll_put cx_w 0 cx_f (map (fun k => (k, ex_a)) [0; 1]).
+Proof.
+  unfold exec_all. cbv zeta.
+  assert (E : lookup_file cx_w (slot_of (OPut 0 true ex_a)) = Some (0, cx_f)) by (vm_compute; reflexivity).
+  rewrite E. assert (Et : f_tainted cx_f = false) by (vm_compute; reflexivity). rewrite Et.
+  unfold acc_unmodelled.
+  assert (Er : all_ranks cx_w = [0; 1]) by (vm_compute; reflexivity). rewrite Er. reflexivity.
+Qed.
+
+Example cx_accepted : forall k, In k [0; 1] -> put_accepted cx_w cx_f k true ex_a ex_r.
+Proof.
+  assert (Hg : wf_geom (acc_geom cx_f ex_a) /\ rec_fits (acc_geom cx_f ex_a)).
+  { assert (E : acc_geom cx_f ex_a = acc_geom ex_f ex_a) by (vm_compute; reflexivity).
+    rewrite E. exact ex_geom_wf. }
+  assert (Hsl : 0 <= f_slot cx_f < Zlen (w_disks cx_w))
+    by (split; [apply Z.leb_le | apply Z.ltb_lt]; vm_compute; reflexivity).
+  assert (Hsan : sanity cx_f true true true ex_a = NC_NOERR) by (vm_compute; reflexivity).
+  assert (Hio : iomismatch ex_a [ex_r] = false) by (vm_compute; reflexivity).
+  assert (Hfl : form_lengths (ac_form ex_a) (length (g_shape (acc_geom cx_f ex_a))))
+    by (vm_compute; repeat split; reflexivity).
+  intros k [<-|[<-|[]]].
+  - refine (conj Hsl (conj Hsan (conj _ (conj Hio (conj Hfl Hg))))). vm_compute. reflexivity.
+  - refine (conj Hsl (conj Hsan (conj _ (conj Hio (conj Hfl Hg))))). vm_compute. reflexivity.
+Qed.
+
+Example cx_file2 : znth (w_files cx_w2) 0 None = Some cx_f2.
+Proof. vm_compute. reflexivity. Qed.
+
+Example cx_get_accepted : get_accepted cx_w2 cx_f2 1 true ex_a ex_r.
+Proof.
+  assert (H1 : sanity cx_f2 false true true ex_a = NC_NOERR) by (vm_compute; reflexivity).
+  assert (H2 : check_request cx_w2 cx_f2 1 true ex_a = (NC_NOERR, Some [ex_r])) by (vm_compute; reflexivity).
+  assert (H3 : ac_memt ex_a = acc_xt cx_f2 ex_a) by (vm_compute; reflexivity).
+  assert (H4 : form_lengths (ac_form ex_a) (length (g_shape (acc_geom cx_f2 ex_a))))
+    by (vm_compute; repeat split; reflexivity).
+  refine (conj H1 (conj H2 (conj eq_refl (conj H3 (conj H4 _))))).
+  assert (E : acc_geom cx_f2 ex_a = acc_geom ex_f ex_a) by (vm_compute; reflexivity).
+  rewrite E. exact (proj1 ex_geom_wf).
+Qed.
+
+(* both ranks put, numrecs becomes 4 (header bytes 4..11 rewritten), rank 1 reads back *)
+Example cx_coll_get :
+  snd (coll_put cx_w 0 cx_f (map (fun k => (k, ex_a)) [0; 1])) =
+    [(0, NC_NOERR, [TSame]); (1, NC_NOERR, [TSame])] /\
+  get_rank_op cx_w2 cx_f2 1 true ex_a =
+    (NC_NOERR, [THex (guard_bytes ++ [90; 99; 179; 39; 60; 97; 149; 37] ++ guard_bytes)]) /\
+  dk_read (disk_of cx_w2 cx_f2) 4 8 = [0; 0; 0; 0; 0; 0; 0; 4].
+Proof.
+  destruct (coll_put_same_then_get cx_w 0 cx_f [0; 1] ex_a ex_r) as (w2 & f2 & Hcp & Hf2 & Hget).
+  - discriminate.
+  - split; [apply Z.leb_le | apply Z.ltb_lt]; vm_compute; reflexivity.
+  - exact cx_file.
+  - exact cx_accepted.
+  - apply Z.leb_le. vm_compute. reflexivity.
+  - assert (Ew : w2 = cx_w2) by (unfold cx_w2; rewrite Hcp; reflexivity). subst w2.
+    rewrite cx_file2 in Hf2. apply some_inj in Hf2. subst f2.
+    split; [rewrite Hcp; reflexivity|]. split.
+    + rewrite (Hget 1 true ex_a eq_refl cx_get_accepted). vm_compute. reflexivity.
+    + vm_compute. reflexivity.
+Qed.
+
+(* ---------- why put_rank_effect needs "0 <= f_slot f < Zlen (w_disks w)" ---------- *)
+(* a file state whose slot has no disk in the world (not reachable through exec_step, whose
+   lookup_file fails for such a slot, but a legal argument of put_rank): every check passes,
+   put_rank answers NC_NOERR, and nothing is written — set_disk outside the list is a no-op *)
+Definition ex_f9 : filest :=
+  mkfile (f_hdr ex_f) (f_lay ex_f) false true false false None false no_align (f_ranks ex_f) 9 false.
+
+Example put_rank_effect_slot_cex :
+  sanity ex_f9 true true false ex_a = NC_NOERR /\
+  check_request ex_w ex_f9 0 false ex_a = (NC_NOERR, Some [ex_r]) /\
+  iomismatch ex_a [ex_r] = false /\
+  let '(w', rc, _, _) := put_rank ex_w 0 ex_f9 0 false ex_a in
+  rc = NC_NOERR /\
+  dk_exists (disk_of w' ex_f9) = false /\
+  dk_exists (put_disk ex_f9 ex_a ex_r (disk_of ex_w ex_f9)) = true.
+Proof. vm_compute. repeat split; reflexivity. Qed.
+
+Print Assumptions coll_put_effect.
+Print Assumptions coll_put_same_then_get.
+Print Assumptions cx_coll_get.
+Print Assumptions enddef_fill_reads_fill.
+Print Assumptions fx_fill_reads.
 Print Assumptions put_rank_effect.
 Print Assumptions check_request_req_ok.
 Print Assumptions put_rank_frame.
